@@ -482,6 +482,17 @@ def fn_contexts(items):
                     c.compile()
                 for d in ('forward', 'backward'):
                     check('%s,%s' % (ccls, how), c, d)
+            # the gate placed into a circuit that was ALREADY compiled (empty register compiled first), then compiled again
+            c = mk()
+            try:
+                c.compile()
+                c.take(make_gate(name, qs))
+                c.compile()
+            except Exception as e:
+                viol.append(V('C11/%s/context=%s,placed-after-compile/raises-%s' % (cls, ccls, type(e).__name__), item, '%s: compile(), take(gate), compile() raised %s' % (label, e)))
+            else:
+                for d in ('forward', 'backward'):
+                    check('%s,placed-after-compile' % ccls, c, d)
             if ccls == 'CliffordCircuit':
                 c = mk()
                 c.take(make_gate(name, qs))
